@@ -95,7 +95,7 @@ Definition norep (st : bstate) : Prop := b_repeats st <> RPresent -> NoDup (map 
 
 Lemma step_norep s st o : norep st -> norep (fst (step s st o)).
 Proof.
-  unfold norep. intro H. destruct o as [c ids p|rows p|lo hi rem|]; cbn [step].
+  unfold norep. intro H. destruct o as [c ids p|rows cols p|lo hi rem|]; cbn [step].
   - destruct c; [destruct (add_entities (b_users st) ids p)|destruct (add_entities (b_items st) ids p)]; cbn; exact H.
   - destruct (link_class (b_users st) (map uid_of rows) p) as [[us unums]|e]; [|exact H].
     destruct (link_class (b_items st) (map iid_of rows) p) as [[is_ inums]|e]; [|exact H].
@@ -115,13 +115,13 @@ Proof.
 Qed.
 
 (* repeats are rejected: under "forbidden" a batch that would repeat a pair raises and leaves the table alone *)
-Lemma repeats_rejected_step s st rows p us unums is_ inums :
+Lemma repeats_rejected_step s st rows cols p us unums is_ inums :
   b_repeats st = RForbidden ->
   link_class (b_users st) (map uid_of rows) p = Ok (us, unums) ->
   link_class (b_items st) (map iid_of rows) p = Ok (is_, inums) ->
   ~ NoDup (map fst (b_table st ++ zip_recs unums inums rows)) ->
-  snd (step s st (AddInteractions rows p)) = Some EData /\
-  b_table (fst (step s st (AddInteractions rows p))) = b_table st.
+  snd (step s st (AddInteractions rows cols p)) = Some EData /\
+  b_table (fst (step s st (AddInteractions rows cols p))) = b_table st.
 Proof.
   intros R Lu Li Hd. cbn [step]. rewrite Lu, Li, R.
   destruct (has_dup_pair (map fst (b_table st ++ zip_recs unums inums rows))) eqn:D; [split; reflexivity|].
@@ -298,13 +298,13 @@ Proof.
 Qed.
 
 Lemma repeats_rejected_l :
-  (forall s st rows p us unums is_ inums,
+  (forall s st rows cols p us unums is_ inums,
      b_repeats st = RForbidden ->
      link_class (b_users st) (map uid_of rows) p = Ok (us, unums) ->
      link_class (b_items st) (map iid_of rows) p = Ok (is_, inums) ->
      ~ NoDup (map fst (b_table st ++ zip_recs unums inums rows)) ->
-     snd (step s st (AddInteractions rows p)) = Some EData /\
-     b_table (fst (step s st (AddInteractions rows p))) = b_table st) /\
+     snd (step s st (AddInteractions rows cols p)) = Some EData /\
+     b_table (fst (step s st (AddInteractions rows cols p))) = b_table st) /\
   (forall st, b_repeats st = RPresent -> build st = Err ENotImpl).
 Proof.
   split; [exact repeats_rejected_step|]. intros st H. unfold build. rewrite H. reflexivity.
